@@ -81,7 +81,7 @@ def same_value(n, r, path='$'):
         d, e = n.vd, r.vd
         if d == 0 or (d == int(d) and abs(d) < 1e15):
             if e != d: return '%s: number %r re-parsed as %r' % (path, d, e)
-        elif not (abs(e - d) <= abs(d) * EPS): return '%s: number %r re-parsed as %r (more than one part in 2^52)' % (path, d, e)
+        elif not (abs(e - d) <= max(abs(d), abs(e)) * EPS): return '%s: number %r re-parsed as %r (more than one part in 2^52)' % (path, d, e)
     if t == T_STRING and (r.vs or b'') != (n.vs or b''): return '%s: string bytes differ' % path
     if t in (T_ARRAY, T_OBJECT):
         if len(n.ch) != len(r.ch): return '%s: %d children re-parsed as %d' % (path, len(n.ch), len(r.ch))
